@@ -10,6 +10,7 @@
 #include "../fw/ledger.h"
 #include "../fw/sched.h"
 #include <eventpp/eventqueue.h>
+#include <eventpp/hetereventqueue.h>
 
 using namespace verif;
 
@@ -18,12 +19,64 @@ struct QPol {
 	template <typename T> using QueueList = VList<T>;
 };
 using Q = eventpp::EventQueue<int, void(const Tracked &), QPol>;
+struct QPolH { using Threading = VThreading; };
+using HQ = eventpp::HeterEventQueue<int, eventpp::HeterTuple<void(const Tracked &), void(int)>, QPolH>;
+
+// The harness drives either queue through this small interface (virtual calls add no behaviour).
+struct QIface {
+	virtual ~QIface() {}
+	virtual void share() = 0;
+	virtual void addListener(const std::function<void(const Tracked &)> & f) = 0;
+	virtual void enqueue(int id) = 0;
+	virtual bool process() = 0;
+	virtual bool processOne() = 0;
+	virtual bool processIfOdd() = 0;
+	virtual bool processUntilEven() = 0;
+	virtual void clearEvents() = 0;
+	virtual int takeOrPeek(bool peek, bool & found) = 0;      // payload id, or -1 when damaged
+	virtual void wait() = 0;
+	virtual bool waitFor(int ms) = 0;
+	virtual bool emptyQueue() = 0;
+	virtual std::shared_ptr<void> disableNotify() = 0;
+};
+struct HomoImpl : QIface {
+	Q q;
+	void share() override { sched().addSharedRange(&q, sizeof q); }
+	void addListener(const std::function<void(const Tracked &)> & f) override { q.appendListener(1, f); }
+	void enqueue(int id) override { q.enqueue(1, Tracked(id)); }
+	bool process() override { return q.process(); }
+	bool processOne() override { return q.processOne(); }
+	bool processIfOdd() override { return q.processIf([](const Tracked & t) { return t.id % 2 == 1; }); }
+	bool processUntilEven() override { return q.processUntil([](const Tracked & t) { return t.id % 2 == 0; }); }
+	void clearEvents() override { q.clearEvents(); }
+	int takeOrPeek(bool peek, bool & found) override { Q::QueuedEvent qe; found = peek ? q.peekEvent(&qe) : q.takeEvent(&qe); if(!found) return 0; const Tracked & t = std::get<0>(qe.arguments); return t.intact() ? t.id : -1; }
+	void wait() override { q.wait(); }
+	bool waitFor(int ms) override { return q.waitFor(std::chrono::milliseconds(ms)); }
+	bool emptyQueue() override { return q.emptyQueue(); }
+	std::shared_ptr<void> disableNotify() override { return std::shared_ptr<void>(new Q::DisableQueueNotify(&q), [](void * p) { delete static_cast<Q::DisableQueueNotify *>(p); }); }
+};
+struct HeterImpl : QIface {
+	HQ q;
+	void share() override { sched().addSharedRange(&q, sizeof q); }
+	void addListener(const std::function<void(const Tracked &)> & f) override { q.appendListener(1, f); }
+	void enqueue(int id) override { q.enqueue(1, Tracked(id)); }
+	bool process() override { return q.process(); }
+	bool processOne() override { return q.processOne(); }
+	bool processIfOdd() override { return q.processIf([](const Tracked & t) { return t.id % 2 == 1; }); }
+	bool processUntilEven() override { return false; }
+	void clearEvents() override { q.clearEvents(); }
+	int takeOrPeek(bool, bool & found) override { found = false; return 0; }
+	void wait() override { q.wait(); }
+	bool waitFor(int ms) override { return q.waitFor(std::chrono::milliseconds(ms)); }
+	bool emptyQueue() override { return q.emptyQueue(); }
+	std::shared_ptr<void> disableNotify() override { return std::shared_ptr<void>(); }
+};
 
 enum OpKind { O_ENQ, O_DQN_ENQ, O_DQN2, O_PROCESS, O_PROCESS_ONE, O_PROCESS_IF_ODD, O_PROCESS_UNTIL_EVEN, O_TAKE, O_PEEK, O_CLEAR,
-	O_WAIT_PROCESS, O_WAITFOR_PROCESS, O_EMPTY, O_WAITFOR0, O_WAIT_DRAIN };
+	O_WAIT_PROCESS, O_WAITFOR_PROCESS, O_EMPTY, O_WAITFOR0, O_WAIT_DRAIN, O_DQN_ONLY };
 static const char * opName(OpKind k) {
 	static const char * n[] = {"enqueue", "{DQN;enqueue}", "{DQN;{DQN;enqueue}enqueue}", "process", "processOne", "processIf(odd)", "processUntil(even)", "takeEvent", "peekEvent", "clearEvents",
-		"wait;process", "waitFor;process", "emptyQueue", "waitFor(0)", "wait;drain"};
+		"wait;process", "waitFor;process", "emptyQueue", "waitFor(0)", "wait;drain", "{DQN}"};
 	return n[k];
 }
 static int enqueuesOf(OpKind k) { return k == O_ENQ || k == O_DQN_ENQ ? 1 : (k == O_DQN2 ? 2 : 0); }
@@ -51,7 +104,8 @@ struct DqnRec { long ctorStart, ctorDone, dtorStart, dtorEnd; };
 struct Run {
 	Ctx & ctx;
 	const Config & cfg;
-	Q * q = nullptr;
+	QIface * q = nullptr;
+	bool heter = false;
 	std::vector<Ev> evs;          // index = id-1
 	std::vector<Call> calls;
 	std::vector<DqnRec> dqns;
@@ -81,7 +135,7 @@ struct Run {
 		Ev & e = evs[id - 1];
 		e.enqStart = tick();
 		if(ctx.wantLog()) ctx.log(fmt("T%d: enqueue(%d)", curThread(), id));
-		q->enqueue(1, Tracked(id));
+		q->enqueue(id);
 		e.enqEnd = tick();
 	}
 	struct DqnGuard {   // records the start of the DisableQueueNotify destructor (declared after it, so destroyed before it)
@@ -97,22 +151,31 @@ struct Run {
 		case O_DQN_ENQ: {
 			size_t di = dqns.size(); dqns.push_back(DqnRec{tick(), -1, -1, -1});
 			DqnEnd de{this, di};
-			Q::DisableQueueNotify d(q);
+			std::shared_ptr<void> d = q->disableNotify();
 			dqns[di].ctorDone = tick();
 			DqnGuard g{this, di};
 			doEnqueue(ids[nextEnq++]);
 			break;
 		}
+		case O_DQN_ONLY: {
+			size_t di = dqns.size(); dqns.push_back(DqnRec{tick(), -1, -1, -1});
+			DqnEnd de{this, di};
+			std::shared_ptr<void> d = q->disableNotify();
+			dqns[di].ctorDone = tick();
+			DqnGuard g{this, di};
+			if(ctx.wantLog()) ctx.log(fmt("T%d: DisableQueueNotify scope without enqueue", curThread()));
+			break;
+		}
 		case O_DQN2: {
 			size_t d1 = dqns.size(); dqns.push_back(DqnRec{tick(), -1, -1, -1});
 			DqnEnd de1{this, d1};
-			Q::DisableQueueNotify a(q);
+			std::shared_ptr<void> a = q->disableNotify();
 			dqns[d1].ctorDone = tick();
 			DqnGuard g1{this, d1};
 			{
 				size_t d2 = dqns.size(); dqns.push_back(DqnRec{tick(), -1, -1, -1});
 				DqnEnd de2{this, d2};
-				Q::DisableQueueNotify b(q);
+				std::shared_ptr<void> b = q->disableNotify();
 				dqns[d2].ctorDone = tick();
 				DqnGuard g2{this, d2};
 				doEnqueue(ids[nextEnq++]);
@@ -125,8 +188,8 @@ struct Run {
 			bool r = false;
 			if(k == O_PROCESS) r = q->process();
 			else if(k == O_PROCESS_ONE) r = q->processOne();
-			else if(k == O_PROCESS_IF_ODD) r = q->processIf([](const Tracked & t) { return t.id % 2 == 1; });
-			else if(k == O_PROCESS_UNTIL_EVEN) r = q->processUntil([](const Tracked & t) { return t.id % 2 == 0; });
+			else if(k == O_PROCESS_IF_ODD) r = q->processIfOdd();
+			else if(k == O_PROCESS_UNTIL_EVEN) r = q->processUntilEven();
 			else q->clearEvents();
 			calls[ci].result = r; calls[ci].end = tick();
 			if(ctx.wantLog()) ctx.log(fmt("T%d: %s -> %d", thread, opName(k), (int)r));
@@ -134,18 +197,17 @@ struct Run {
 		}
 		case O_TAKE: case O_PEEK: {
 			size_t ci = calls.size(); calls.push_back(Call{thread, k, tick(), -1, -1, false});
-			Q::QueuedEvent qe;
-			bool r = (k == O_TAKE) ? q->takeEvent(&qe) : q->peekEvent(&qe);
+			bool r = false;
+			int pid = q->takeOrPeek(k == O_PEEK, r);
 			calls[ci].result = r; calls[ci].end = tick();
 			if(r) {
-				const Tracked & t = std::get<0>(qe.arguments);
-				if(t.id < 1 || t.id > (int)evs.size() || !t.intact()) ctx.fail("payload-corrupt", fmt("%s handed out a damaged event (payload id %d)", opName(k), t.id));
+				if(pid < 1 || pid > (int)evs.size()) ctx.fail("payload-corrupt", fmt("%s handed out a damaged event (payload id %d)", opName(k), pid));
 				else {
-					Ev & e = evs[t.id - 1];
-					if(e.enqStart < 0) ctx.fail("event-from-nowhere", fmt("%s handed out event %d before it was enqueued", opName(k), t.id));
+					Ev & e = evs[pid - 1];
+					if(e.enqStart < 0) ctx.fail("event-from-nowhere", fmt("%s handed out event %d before it was enqueued", opName(k), pid));
 					if(k == O_TAKE) { ++e.taken; e.takeStart = calls[ci].start; e.consumer = thread; e.consumedSeq = calls[ci].end; }
 				}
-				if(ctx.wantLog()) ctx.log(fmt("T%d: %s -> event %d", thread, opName(k), t.id));
+				if(ctx.wantLog()) ctx.log(fmt("T%d: %s -> event %d", thread, opName(k), pid));
 			}
 			else if(ctx.wantLog()) ctx.log(fmt("T%d: %s -> nothing", thread, opName(k)));
 			break;
@@ -164,7 +226,7 @@ struct Run {
 			size_t ci = calls.size(); calls.push_back(Call{thread, k, tick(), -1, -1, false});
 			VThread * m = Sched::me();
 			if(m) m->timedOut = false;
-			bool r = (k == O_WAITFOR0) ? q->waitFor(std::chrono::milliseconds(0)) : q->waitFor(std::chrono::milliseconds(10));
+			bool r = (k == O_WAITFOR0) ? q->waitFor(0) : q->waitFor(10);
 			calls[ci].end = tick(); calls[ci].result = r; calls[ci].timedOut = (k == O_WAITFOR0) || (m && m->timedOut);
 			if(ctx.wantLog()) ctx.log(fmt("T%d: %s -> %d", thread, opName(k), (int)r));
 			if(k == O_WAITFOR_PROCESS && r) op(thread, O_PROCESS, nextEnq);
@@ -316,10 +378,11 @@ struct Run {
 		s.begin();
 		bool aborted = false;
 		{
-			Q queue;
+			std::unique_ptr<QIface> holder(heter ? static_cast<QIface *>(new HeterImpl()) : static_cast<QIface *>(new HomoImpl()));
+			QIface & queue = *holder;
 			q = &queue;
-			s.addSharedRange(&queue, sizeof queue);
-			queue.appendListener(1, [this](const Tracked & t) { listener(t); });
+			queue.share();
+			queue.addListener([this](const Tracked & t) { listener(t); });
 			try {
 				for(size_t t = 0; t < cfg.threads.size(); ++t) { int tn = (int)t + 1; s.spawn([this, tn]() { runThread(tn); }); }
 				s.joinAll();
@@ -366,7 +429,7 @@ static std::vector<Config> configsC07(int tier) {
 	// 1 waiter || 1 enqueuer
 	addConfigs(v, {waiter, enq1});
 	// 1 waiter || enqueuer || plain processor / second enqueuer
-	std::vector<Prog> third = {{O_PROCESS}, {O_ENQ}, {O_DQN_ENQ}};
+	std::vector<Prog> third = {{O_PROCESS}, {O_ENQ}, {O_DQN_ENQ}, {O_DQN_ONLY}, {O_DQN_ONLY, O_DQN_ONLY}};
 	std::vector<Prog> enqS = {{O_ENQ}, {O_DQN_ENQ}, {O_DQN2}};
 	addConfigs(v, {waiter, enqS, third});
 	// 2 waiters || enqueuer
@@ -420,13 +483,16 @@ static std::vector<Config> configsC11(int tier) {
 // ------------------------------------------------------------------ units
 static const int NSHARDS = 16;
 
-static void addFamily(const char * fam, std::vector<Config> (*gen)(int), int boundQuick, int boundThorough) {
+static bool heterSupports(const Config & c) { return !c.has(O_DQN_ENQ) && !c.has(O_DQN2) && !c.has(O_DQN_ONLY) && !c.has(O_TAKE) && !c.has(O_PEEK) && !c.has(O_PROCESS_UNTIL_EVEN); }
+
+static void addFamily(const char * fam, std::vector<Config> (*gen)(int), int boundQuick, int boundThorough, bool heter = false, int minTier = 0) {
 	for(int shard = 0; shard < NSHARDS; ++shard) {
 		Unit u;
 		u.name = fmt("%s/shard%02d", fam, shard);
-		u.minTier = 0;
+		u.minTier = minTier;
 		auto pick = [=](int tier) {
-			std::vector<Config> all = gen(tier), mine;
+			std::vector<Config> raw = gen(tier), all, mine;
+			for(size_t i = 0; i < raw.size(); ++i) if(!heter || heterSupports(raw[i])) all.push_back(raw[i]);
 			for(size_t i = 0; i < all.size(); ++i) if((int)(i % NSHARDS) == shard) mine.push_back(all[i]);
 			return mine;
 		};
@@ -442,6 +508,7 @@ static void addFamily(const char * fam, std::vector<Config> (*gen)(int), int bou
 				DfsResult r = dfs(ctx, bound, [&]() {
 					ctx.ex.choose(1000, 1000, K_OP);   // consumes the forced configuration index
 					Run run(ctx, cfg);
+					run.heter = heter;
 					run.run();
 					maxPoints = std::max(maxPoints, sched().steps);
 					if(sched().deadlock.happened) ++deadlocks;
@@ -452,7 +519,7 @@ static void addFamily(const char * fam, std::vector<Config> (*gen)(int), int bou
 			rep.num["max_points_per_execution"] = (double)maxPoints;
 			rep.num["deadlock_outcomes"] = (double)deadlocks;
 			rep.num["executions"] = (double)ctx.executions;
-			rep.str["config"] = fmt("%s shard %d/%d: %zu configurations, preemption bound %d", fam, shard, NSHARDS, mine.size(), bound);
+			rep.str["config"] = fmt("%s (%s) shard %d/%d: %zu configurations, preemption bound %d", fam, heter ? "HeterEventQueue, V-Threading policy + hook points" : "EventQueue, V-Threading + VList policies", shard, NSHARDS, mine.size(), bound);
 		};
 		u.replay = [=](Ctx & ctx, const std::vector<int> & seq) {
 			// the first element names the configuration (1-based) inside the shard for the tier that produced it; try thorough's list first
@@ -466,6 +533,7 @@ static void addFamily(const char * fam, std::vector<Config> (*gen)(int), int bou
 				ctx.tracing = true; ctx.trace.clear(); ctx.failed = false;
 				ctx.log("configuration: " + mine[ci].name());
 				Run run(ctx, mine[ci]);
+				run.heter = heter;
 				run.run();
 				return;
 			}
@@ -481,12 +549,15 @@ static struct Register {
 	Register() {
 #if VERIF_ONLY == 0 || VERIF_ONLY == 6
 		addFamily("C06", configsC06, 2, 3);
+		addFamily("C06/heter", configsC06, 1, 2, true);
 #endif
 #if VERIF_ONLY == 0 || VERIF_ONLY == 7
 		addFamily("C07", configsC07, 2, 3);
+		addFamily("C07/heter", configsC07, 2, 2, true);
 #endif
 #if VERIF_ONLY == 0 || VERIF_ONLY == 11
 		addFamily("C11", configsC11, 2, 3);
+		addFamily("C11/heter", configsC11, 1, 2, true);
 #endif
 	}
 } reg;
